@@ -325,6 +325,7 @@ class TzDevice {
   SavedForm store[kMaxStore];   // durable: survives REBOOT
   Query lastQ;
   bool sawNontrivial = false;
+  std::map<std::string, int> errorSeen;   // C09 M2': (zone, query, argument) -> op index of an earlier error answer
   ClockDevice* clockDev = nullptr;
 
   void dropVolatile() {
@@ -521,6 +522,27 @@ void TzDevice::doQuery(int c, const Query& q, int opIndex, Verdict& v, Coverage&
         v.fail("c09-error-lost", fmt("client %d (%s %s): %s with an argument outside the supported range (%s) "
             "returned the non-error value %s", c, kindName(d.kind), zoneName(d.kind, d.zi), q.kind.c_str(), ac,
             r.show().c_str()), opIndex);
+      }
+    }
+    // M2' (relative): an argument the code itself answered with an error earlier in this run (for the
+    // same zone, through any client) is by the code's own judgement outside the supported range, so the
+    // answer must keep being an error - whatever was asked in between. Needs no opinion on the range.
+    if (isZone(d.kind) && fills) {
+      std::string key = fmt("%p|%s|%lld|%d-%d-%d-%d-%d-%d", d.zi, q.kind.c_str(), (long long)(q.byEpoch() ? q.e : 0),
+          q.byComponents() ? q.y : 0, q.byComponents() ? q.mo : 0, q.byComponents() ? q.d : 0,
+          q.byComponents() ? q.h : 0, q.byComponents() ? q.mi : 0, q.byComponents() ? q.s : 0);
+      bool isErr = q.kind == "abbrev" ? r.s.empty() : r.err;
+      std::map<std::string, int>::iterator it = errorSeen.find(key);
+      if (it != errorSeen.end()) {
+        cov.count("c09.m2_repeat_checks");
+        if (!isErr) {
+          v.fail("c09-error-not-persistent", fmt("client %d (%s %s): %s(%s) was answered with an error at op %d of this run "
+              "and now returns the non-error value %s", c, kindName(d.kind), zoneName(d.kind, d.zi), q.kind.c_str(),
+              q.byComponents() ? fmt("%d-%02d-%02dT%02d:%02d:%02d", q.y, q.mo, q.d, q.h, q.mi, q.s).c_str()
+                               : fmt("%lld", (long long)q.e).c_str(), it->second, r.show().c_str()), opIndex);
+        }
+      } else if (isErr) {
+        errorSeen[key] = opIndex;
       }
     }
     // M3: pools
@@ -1070,6 +1092,16 @@ struct Gen {
           // failing queries are repeated back to back and interleaved with valid ones on the same processor
           int reps = (int)rng.range(0, 3);
           for (int k = 0; k < reps; k++) line(fmt("QR %d", rng.chance(3, 4) ? c : liveClient()));
+          if (rng.chance(1, 2)) {
+            // ... then a valid query for the nearest year inside the zone data on the same client (so the
+            // cache now holds a neighbouring year), then the identical failing query once more
+            int ny = lastY > 2050 ? 2050 : (lastY < 1999 ? (int)rng.range(1999, 2000) : lastY);
+            if (rng.chance(1, 4)) ny = (int)rng.range(2000, 2049);
+            static const char* ks[] = {"utc", "delta", "abbrev", "zdt"};
+            line(fmt("Q %d %s %lld", c, ks[rng.below(4)],
+                (long long)(epochOfYearStart(ny) + rng.range(2 * 86400, 364 * 86400))));
+            line(fmt("Q %d %s", rng.chance(3, 4) ? c : liveClient(), q.c_str()));
+          }
         }
       } else if ((w -= mix.wQuery) < mix.wRepeat) {
         line(fmt("QR %d", liveClient()));
